@@ -41,6 +41,8 @@ def run(c):
             runs.append(scen("%s/%s/%d" % (a, v, k), a, v, k))
             if d == "file.Write":
                 runs.append(scen("%s/%s/%d-short" % (a, v, k), a, v, k, "short"))
+            if d == "readerat.ReadAt":
+                runs.append(scen("%s/%s/%d-eof" % (a, v, k), a, v, k, "eof"))
     res2, deaths2 = c.run_worker("faults", runs, env=env)
     allsc = base + runs
     res.update(res2)
